@@ -602,7 +602,7 @@ def check_c06(tier, seed, replay=None):
     try:
         miri_prepare()
         per = 100 if tier == "quick" else 1200
-        mi = run_miri("c06", tier, seed, {"max_cases": per}, timeout=1500 if tier == "quick" else 14000)
+        mi = run_miri("c06", tier, seed, {"max_cases": per, "budget_s": 120 if tier == "quick" else 3000}, timeout=1500 if tier == "quick" else 14000)
         tools.append(tool_summary("Miri (UB, out-of-bounds pointer arithmetic, provenance, uninitialised reads)", mi))
         merged.merge(mi)
     except HarnessError as e:
@@ -834,12 +834,12 @@ CHECKS = {
     "C10": simple_check(
         "C10",
         "c10",
-        "code-space sweeps in the three modes i / iu / iv: (0) hook sweep of the engine's Canonicalize for all 1,114,112 code points x 2 relations; (1) every aligned 256-code-point block as a class /[B]/i scanned over a haystack holding every scalar value (quick: all blocks containing a case-related code point + a seed-selected eighth of the others; thorough: all 4352);"
+        "code-space sweeps in the three modes i / iu / iv: (0) hook sweep of the engine's Canonicalize for all 1,114,112 code points x 2 relations; (1) every aligned 256-code-point block as a class /[B]/i scanned over a haystack holding every scalar value (quick: all blocks containing a case-related code point + a seed-selected eighth of the others; thorough: all 4352); (1b) every short range [lo-hi] with lo in c-2..c+1 and hi up to c+3 around every case-related code point c;"
         " (2) /c/i for code points c (quick: all case-related ones + a seed-selected 1/97 of the others; thorough: every code point incl. surrogates) run on a haystack of all case-related characters + c (thorough: case-related ones also over all scalars); (3) for every non-trivial equivalence class and ordered member pair: [c], [^c] on a member and on an outsider, (c)\\1, named backreference, backreference in lookbehind, [c-c], and the ASCII entry point for ASCII pairs; (4) \\w \\W \\b [\\w] [\\W] for every code point whose class meets the ASCII word characters."
         " A case is one (construct, mode, code point / pair / block); non-trivial iff a case-related code point is involved.",
         ["legacy relation: std (Unicode 17) char::to_uppercase with the two ECMAScript exceptions -- exact", "unicode relation: regex-syntax 16.0 simple-case-folding orbits; pairs among code points unassigned in 16.0 are taken from std 17 single-character lower/upper mappings (coverage.code_points_with_orbit_from_std17) -- an assumption for those code points"],
-        required=["blocks_scanned", "literal_code_points", "construct.backreference", "construct.negated_class", "construct.word_probes", "construct.ascii_literal", "hook_canonicalize_calls"],
-        extra=lambda m: dict(constructs=group_counters(m.counters, "construct."), blocks_scanned=m.c("blocks_scanned"), literal_code_points=m.c("literal_code_points"), classes=m.c("classes"), ordered_pairs=m.c("ordered_pairs"), hook_canonicalize_calls=m.c("hook_canonicalize_calls"), code_points_with_orbit_from_std17=m.c("code_points_with_orbit_from_std17") // 16),
+        required=["blocks_scanned", "short_ranges", "literal_code_points", "construct.backreference", "construct.negated_class", "construct.word_probes", "construct.ascii_literal", "hook_canonicalize_calls"],
+        extra=lambda m: dict(constructs=group_counters(m.counters, "construct."), blocks_scanned=m.c("blocks_scanned"), short_ranges=m.c("short_ranges"), literal_code_points=m.c("literal_code_points"), classes=m.c("classes"), ordered_pairs=m.c("ordered_pairs"), hook_canonicalize_calls=m.c("hook_canonicalize_calls"), code_points_with_orbit_from_std17=m.c("code_points_with_orbit_from_std17") // 16),
         mem_gb=8,
     ),
     "C11": simple_check(
